@@ -8,7 +8,7 @@
 //!   real FuelVM unpatched and patched at `abi.configurables[j].offset`:
 //!     `base seed=… t=<ty|ty…> d=<hex,…> offs=<o,…> ;; at=<hex,…> observed=<hex,…>`
 //!     `patch seed=… t=… d=… j=<j> new=<hex> ;; observed=<hex,…>`
-//!     `build seed=… t=… ;; panic|error`   (the compiler did not produce a program)
+//!     `build seed=… t=… ;; panic|error`   (the compiler did not produce a program); `built … ;; ok` (it did; corpus `unstable <n>`)
 use std::io::Write;
 use std::path::Path;
 use svharness::{proto::*, rng::*, swayrun::*};
@@ -428,8 +428,9 @@ fn run_vm(bytecode: &[u8]) -> Result<Vec<Vec<u8>>, String> {
     let mut bad = None;
     for rc in tr.receipts() {
         match rc {
-            Receipt::LogData { data, .. } => logs.push(data.clone().map(|d| d.to_vec()).unwrap_or_default()),
-            Receipt::Log { ra, .. } => logs.push(ra.to_be_bytes().to_vec()),
+            Receipt::LogData { data, .. } => { let mut v = vec![b'D']; v.extend(data.clone().map(|d| d.to_vec()).unwrap_or_default()); logs.push(v) }
+            // a LOG receipt carries the value as a word; `canon_logs` trims it to the type's encoded width
+            Receipt::Log { ra, .. } => { let mut v = vec![b'W']; v.extend(ra.to_be_bytes()); logs.push(v) }
             Receipt::Panic { reason, .. } => bad = Some(format!("vmpanic:{:?}", reason.reason())),
             Receipt::Revert { ra, .. } => bad = Some(format!("revert:{ra}")),
             _ => {}
@@ -438,6 +439,18 @@ fn run_vm(bytecode: &[u8]) -> Result<Vec<Vec<u8>>, String> {
     match bad { Some(b) => Err(b), None => Ok(logs) }
 }
 
+/// `run_vm` tags each log with `D` (LOGD payload) or `W` (LOG register value). The compiler logs small
+/// integers either way; a word is canonicalised to the big-endian encoding of width `lens[k]` when the
+/// dropped high bytes are zero (otherwise it is kept as 8 bytes and will not match).
+fn canon_logs(logs: Vec<Vec<u8>>, lens: &[usize]) -> Vec<Vec<u8>> {
+    logs.into_iter().enumerate().map(|(k, l)| {
+        let (tag, body) = (l[0], l[1..].to_vec());
+        match lens.get(k) {
+            Some(&n) if tag == b'W' && n <= 8 && body[..8 - n].iter().all(|b| *b == 0) => body[8 - n..].to_vec(),
+            _ => body,
+        }
+    }).collect()
+}
 fn hexlist(v: &[Vec<u8>]) -> String {
     if v.is_empty() { "-".into() } else { v.iter().map(|b| if b.is_empty() { "e".to_string() } else { hex::encode(b) }).collect::<Vec<_>>().join(",") }
 }
@@ -479,7 +492,8 @@ fn e2e_program(prog_seed: u64, forced: Option<(Vec<Ty>, Decls)>, per_cfg: usize,
         let o = *o as usize;
         if o.checked_add(e.len()).map(|end| end <= built.bytes.len()).unwrap_or(false) { built.bytes[o..o + e.len()].to_vec() } else { vec![] }
     }).collect();
-    let obs = match run_vm(&built.bytes) { Ok(l) => format!("observed={}", hexlist(&l)), Err(e) => e };
+    let lens: Vec<usize> = enc.iter().map(|e| e.len()).collect();
+    let obs = match run_vm(&built.bytes) { Ok(l) => format!("observed={}", hexlist(&canon_logs(l, &lens))), Err(e) => e };
     writeln!(out, "base {head} offs={offs_s} len={} ;; at={} {obs}", built.bytes.len(), hexlist(&at)).unwrap();
     lines += 1;
     for j in 0..tys.len() {
@@ -494,7 +508,7 @@ fn e2e_program(prog_seed: u64, forced: Option<(Vec<Ty>, Decls)>, per_cfg: usize,
             let obs = if o.checked_add(ne.len()).map(|end| end <= built.bytes.len()).unwrap_or(false) {
                 let mut b = built.bytes.clone();
                 b[o..o + ne.len()].copy_from_slice(&ne);
-                match run_vm(&b) { Ok(l) => format!("observed={}", hexlist(&l)), Err(e) => e }
+                match run_vm(&b) { Ok(l) => format!("observed={}", hexlist(&canon_logs(l, &lens))), Err(e) => e }
             } else { "offset-out-of-range".to_string() };
             writeln!(out, "patch {head} j={j} new={} ;; {obs}", if ne.is_empty() { "e".into() } else { hex::encode(&ne) }).unwrap();
             lines += 1;
@@ -522,7 +536,7 @@ fn main() {
             Ok(b) => {
                 let ds = u64::from_be_bytes(b.bytes[8..16].try_into().unwrap());
                 println!("len={} data_section_offset={} configurables={:?}", b.bytes.len(), ds, b.offsets.iter().flatten().collect::<Vec<_>>());
-                match run_vm(&b.bytes) { Ok(l) => println!("logs={}", hexlist(&l)), Err(e) => println!("run: {e}") }
+                match run_vm(&b.bytes) { Ok(l) => println!("logs={}", hexlist(&canon_logs(l, &[]))), Err(e) => println!("run: {e}") }
             }
         }
         let _ = std::fs::remove_dir_all(&dir);
@@ -549,6 +563,19 @@ fn main() {
             let f: Vec<&str> = l.split_whitespace().collect();
             match f.as_slice() {
                 ["prog", s] => { cases += 1; e2e_program(s.parse().unwrap(), None, 2, &mut out); }
+                // finding (layout instability of to_bytecode_mut): `[u64; n]` constant sized so that the pointer words
+                // appended for the two b256 literals move configurable C0 across the 12-bit ADDI limit
+                ["unstable", n] => {
+                    cases += 1;
+                    let src = format!("script;\nconfigurable {{ C0: u64 = 7 }}\nconst BIG: [u64; {n}] = [3; {n}];\nfn main() {{\n    let i = C0;\n    log(BIG[i % {n}]);\n    let mut k: b256 = 0x1111111111111111111111111111111111111111111111111111111111111111;\n    if i == 8 {{ k = 0x2222222222222222222222222222222222222222222222222222222222222222; }}\n    log(k);\n    log(C0);\n}}\n");
+                    let dir = scratch_dir("c13u");
+                    let res = build_script(&dir, &src, 1);
+                    let _ = std::fs::remove_dir_all(&dir);
+                    match res {
+                        Err(e) => writeln!(out, "build seed={n} t=unstable-layout[{n}] d=- ;; {e}").unwrap(),
+                        Ok(_) => writeln!(out, "built seed={n} t=unstable-layout[{n}] d=- ;; ok").unwrap(),
+                    }
+                }
                 ["big", n] => {
                     cases += 1;
                     let n: usize = n.parse().unwrap();
